@@ -504,13 +504,12 @@ fn hex(hash: &impl AsRef<[u8]>) -> String {
     digest
 }
 
+/// RDFC-1.0 (steps 5.4.4.3 and 5.4.5.5 of Hash N-Degree Quads) abandons a permutation
+/// when its path (`path2`) is at least as long as the chosen path (`path1`)
+/// and greater than it in code point order.
+/// (A longer path can still be smaller in code point order, e.g. `_:b10` < `_:b9`.)
 fn smaller_path(path1: &str, path2: &str) -> bool {
-    use std::cmp::Ordering::{Equal, Greater, Less};
-    match Ord::cmp(&path1.len(), &path2.len()) {
-        Less => true,
-        Equal => path1 < path2,
-        Greater => false,
-    }
+    path1.len() <= path2.len() && path1 < path2
 }
 
 /// Iter over all the components of a [`Quad`] as Option.
